@@ -26,7 +26,7 @@ class Prog:
 
     def __init__(self, name, dsl, features=None, manual=False, bottom_up=False, payload="void", sublimit=None,
                  taskcap=None, scripted_rng=True, cxx="g++", std="c++17", opt="-O1", san=False, asserts=False,
-                 flavour="single", args=None, verbose_log=False):
+                 flavour="single", args=None, verbose_log=False, extra_flags=None):
         self.name = name
         self.dsl = dsl
         self.root = st.parse(dsl)
@@ -41,7 +41,7 @@ class Prog:
         self.cfg = dict(features=feats, manual=manual, bottom_up=bottom_up, payload=payload, sublimit=sublimit,
                         taskcap=taskcap, scripted_rng=scripted_rng)
         self.build_kw = dict(cxx=cxx, std=std, opt=opt, san=san, flavour=flavour,
-                             flags=(["-DVT_ASSERT"] if asserts else []))
+                             flags=(["-DVT_ASSERT"] if asserts else []) + list(extra_flags or []))
         self.args = list(args or [])
         self.exe = None
         self.label = "%s%s%s%s%s%s" % (name, "/verbose" if verbose_log else "", "/manual" if manual else "", "/bottomup" if bottom_up else "",
@@ -89,6 +89,35 @@ def run_all(chk, prop_ids, progs, common_args, timeout=None, jobs=None):
     return out
 
 
+_ASSERT_CACHE = {}
+
+
+def stable_assert_fingerprint(fp, message):
+    """assert/<file>:<line> -> assert/<enclosing function>/<text of the asserting line> (stable when lines shift)"""
+    import re
+    m = re.search(r"library assertion (\S+):(\d+)", message)
+    if not fp.startswith("assert/") or not m:
+        return fp
+    path, line = m.group(1), int(m.group(2))
+    key = (path, line)
+    if key not in _ASSERT_CACHE:
+        label = fp
+        try:
+            lines = open(path, encoding="utf-8-sig", errors="replace").read().split("\n")
+            text = " ".join(lines[line - 1].split())
+            func = "?"
+            for i in range(line - 1, max(0, line - 400), -1):
+                mm = re.match(r"^[A-Za-z_][^;{}]*?::~?(\w+)\s*\(", lines[i])
+                if mm:
+                    func = mm.group(1)
+                    break
+            label = "assert/%s/%s" % (func, text[:90].replace(" ", ""))
+        except OSError:
+            pass
+        _ASSERT_CACHE[key] = label
+    return _ASSERT_CACHE[key]
+
+
 def aggregate(chk, results, prop, level="model_checking", crash_prop=None):
     states = transitions = compared = 0
     per_prog = {}
@@ -104,7 +133,7 @@ def aggregate(chk, results, prop, level="model_checking", crash_prop=None):
             rp["label"] = p.label
             rp["cfg"] = {k: v2 for k, v2 in p.cfg.items()}
             rp["build"] = {k: v2 for k, v2 in p.build_kw.items()}
-            chk.violation(v["fingerprint"], "[%s] %s" % (p.label, v["message"]), rp)
+            chk.violation(stable_assert_fingerprint(v["fingerprint"], v["message"]), "[%s] %s" % (p.label, v["message"]), rp)
         if crash is not None:
             chk.violation("crash/%s" % p.name, "[%s] explorer crashed or was stopped by a sanitizer: %s" % (p.label, crash[:1500]),
                           {"label": p.label, "stderr": crash})
